@@ -614,7 +614,8 @@ impl World {
         limits: RunLimits,
     ) -> Result<(), crate::error::Execution> {
         let start = Instant::now();
-        let time_limit = start + limits.max_time;
+        // a max_time too large to be added to an instant means "no time limit"
+        let time_limit = start.checked_add(limits.max_time);
         let mut index = 0;
 
         let res = loop {
@@ -659,7 +660,7 @@ impl World {
             }
 
             let now = Instant::now();
-            if now >= time_limit {
+            if time_limit.map(|limit| now >= limit).unwrap_or(false) {
                 break Err(Execution::RunLimit(crate::error::RunLimit::Timeout));
             }
         };
